@@ -50,6 +50,7 @@ func init() {
 		"path/filepath.Base":         mUninterpStr("filepath.Base"),
 		"path/filepath.Dir":          mUninterpStr("filepath.Dir"),
 		"path/filepath.Clean":        mUninterpStr("filepath.Clean"),
+		"sigs.k8s.io/yaml.Unmarshal": mYamlUnmarshal,
 	}
 	lk := func(sc *modScanner, c *ssa.CallCommon) { sc.lockKeysOf(c) }
 	externModelKeys = map[string]func(sc *modScanner, c *ssa.CallCommon){
@@ -338,4 +339,59 @@ func mUninterpInt(name string) externModel {
 		fn := f.x.vc.Fun("fn:"+name, []string{"Int"}, f.x.vc.sortOf(c.Signature().Results().At(0).Type()))
 		return Val{T: c.Signature().Results().At(0).Type(), S: app(fn, args[0].S)}
 	}
+}
+
+// bytesOfKey: ghost map from a backing array to the string it was converted from
+// ([]byte(s)); read in specifications with strof(b).
+const bytesOfKey = "X:bytesof"
+
+// yaml.Unmarshal(data, &out): the decoder is an unknown deterministic library; the model
+// overwrites *out with an arbitrary well-formed value whose memory is fresh, returns an
+// arbitrary error, and logs the call as class "yaml.Unmarshal:<type of out>" with
+// argument 0 = the string the data was converted from and results (error, value stored).
+func mYamlUnmarshal(f *frame, args []Val, c *ssa.CallCommon, pos string) Val {
+	x := f.x
+	h := x.heap
+	mi, ok := c.Args[1].(*ssa.MakeInterface)
+	if !ok {
+		panic(unsupported("yaml.Unmarshal: target is not a pointer converted in place"))
+	}
+	pt, ok := under(mi.X.Type()).(*types.Pointer)
+	if !ok {
+		panic(unsupported("yaml.Unmarshal: target is not a pointer"))
+	}
+	f.trust("yaml.Unmarshal stores an arbitrary well-formed value in freshly allocated memory into its target and touches nothing else")
+	ptr := x.fixPtr(f.val(mi.X))
+	oldA := h.alloc(f.st)
+	na := x.vc.Const("alloc.call", "Int")
+	f.assume(app(">=", na, oldA))
+	f.st.heap[allocKey] = na
+	nv := x.fixPtrs(x.vc.freshVal(pt.Elem(), "yaml.out"))
+	f.assume(h.valAssume(f.st, nv))
+	if _, isSlice := under(pt.Elem()).(*types.Slice); isSlice {
+		b := nv.Fs[0].S
+		f.assume(Or(Eq(b, "0"), app(">=", b, oldA)))
+	}
+	f.storeAt(ptr, nv)
+	// ghost snapshot of a decoded slice: a second array with the same contents that no code
+	// can reach, so that specifications can speak about the decoded values after the program
+	// has normalised them in place (result slot 2)
+	shadow := nv
+	if st, isSlice := under(pt.Elem()).(*types.Slice); isSlice {
+		b2 := x.vc.Const("yaml.shadow", "Int")
+		f.assume(And(app(">=", b2, oldA), app("<", b2, na), Not(Eq(b2, nv.Fs[0].S))))
+		shadow = Val{T: nv.T, Fs: []Val{{T: nv.Fs[0].T, S: b2, P: nv.Fs[0].P}, nv.Fs[1], nv.Fs[2], nv.Fs[3]}}
+		for _, l := range leaves(st.Elem()) {
+			k, srt := h.cellKeySort(&Ptr{Kind: ptrElem, Root: st.Elem()}, l.Path, l.T)
+			arr := h.get(f.st, k, srt)
+			f.assume(Eq(Select(arr, b2), Select(arr, nv.Fs[0].S)))
+		}
+	}
+	err := x.fixPtrs(x.vc.freshVal(errorT(), "yaml.err"))
+	f.assume(h.valAssume(f.st, err))
+	src := Select(h.get(f.st, bytesOfKey, "(Array Int String)"), args[0].Fs[0].S)
+	cls := "yaml.Unmarshal:" + types.TypeString(pt.Elem(), func(p *types.Package) string { return p.Name() })
+	res := Val{T: types.NewTuple(types.NewVar(0, nil, "err", errorT()), types.NewVar(0, nil, "out", pt.Elem()), types.NewVar(0, nil, "snapshot", pt.Elem())), Fs: []Val{err, nv, shadow}}
+	x.ghostLogCall(f.st, cls, []Val{{T: stringT, S: src}}, res)
+	return err
 }
